@@ -61,7 +61,7 @@ def parse_verifier(src):
         if vk is None:
             problems.append("unrecognised view type in impl head: %s" % head)
             continue
-        dec = "cut" if decision == "decision::Cut" else ("tail" if "as Verifier" in decision else "?")
+        dec = "cut" if decision == "decision::Cut" else ("tail" if "as Verifier" in decision else ("stop" if decision == "decision::Append" else "?"))
         if dec == "?":
             problems.append("unrecognised decision: %s" % decision)
         if vk == "id":
@@ -137,7 +137,8 @@ def smt_prelude(rows, left_norm):
     lines = ["(set-logic ALL)"]
     lines.append("(declare-datatypes ((VK 0)) (((imm) (mut) (oimm) (omut) (idv))))")
     lines.append("(declare-datatypes ((CK 0)) (((absent) (cimm) (cmut) (coimm) (comut))))")
-    lines.append("(declare-datatypes ((Dec 0)) (((cut) (tail) (missing))))")
+    # cut: new stage; tail: ask the remaining views; stop: answer Append without looking further
+    lines.append("(declare-datatypes ((Dec 0)) (((cut) (tail) (stop) (missing))))")
     vname = {"imm": "imm", "mut": "mut", "oimm": "oimm", "omut": "omut", "id": "idv"}
     cname = {"absent": "absent", "imm": "cimm", "mut": "cmut", "oimm": "coimm", "omut": "comut"}
     body = "missing"
@@ -253,6 +254,7 @@ def main():
     queries = []
     queries.append(("no missing row", ["(not (= v idv))", "(= (dec v c) missing)"], ["v", "c"]))  # over effective (normalised) rows
     queries.append(("identifier view never cuts", ["(= v idv)", "(not (= (dec v c) tail))"], ["v", "c"]))
+    queries.append(("no row stops the walk early", ["(= (dec v c) stop)"], ["v", "c"]))
     queries.append(("no spurious cut (C12)", ["(= (dec v c) cut)", "(not (conflict v c))"], ["v", "c"]))
     queries.append(("no missing cut (C08)", ["(= (dec v c) tail)", "(conflict v c)"], ["v", "c"]))
     decls = ["(declare-const v VK)", "(declare-const c CK)"]
@@ -265,7 +267,7 @@ def main():
         lst.append("(declare-const claim%d CK)" % j)
     lst.append("(define-fun claim_of ((t Int)) CK (ite (= t 0) claim0 (ite (= t 1) claim1 claim2)))")
     # fold: first Cut wins; views not present are skipped; Null -> Append (=tail here)
-    lst.append("(define-fun step ((p Bool) (k VK) (t Int) (rest Dec)) Dec (ite (not p) rest (ite (= (dec k (claim_of t)) cut) cut (ite (= (dec k (claim_of t)) missing) missing rest))))")
+    lst.append("(define-fun step ((p Bool) (k VK) (t Int) (rest Dec)) Dec (ite (not p) rest (ite (= (dec k (claim_of t)) tail) rest (dec k (claim_of t)))))")
     lst.append("(define-fun fold () Dec (step p0 k0 t0 (step p1 k1 t1 (step p2 k2 t2 tail))))")
     lst.append("(define-fun anyconf () Bool (or (and p0 (conflict k0 (claim_of t0))) (and p1 (conflict k1 (claim_of t1))) (and p2 (conflict k2 (claim_of t2)))))")
     wf = ["(and (<= 0 t0 2) (<= 0 t1 2) (<= 0 t2 2))",
